@@ -3,6 +3,7 @@ package main
 // Write-effect inference: which heap regions, locals and reference parameters a piece of code may modify.
 
 import (
+	"sort"
 	"fmt"
 	"go/ast"
 	"go/token"
@@ -758,4 +759,19 @@ func (ef *Effects) Reachable(root *FuncInfo, skipIface ...string) map[*FuncInfo]
 		}
 	}
 	return seen
+}
+
+// sortedVars returns the variables of a set in a deterministic order (by position, then name).
+func sortedVars(m map[*types.Var]bool) []*types.Var {
+	vs := make([]*types.Var, 0, len(m))
+	for v := range m {
+		vs = append(vs, v)
+	}
+	sort.Slice(vs, func(i, j int) bool {
+		if vs[i].Pos() != vs[j].Pos() {
+			return vs[i].Pos() < vs[j].Pos()
+		}
+		return vs[i].Name() < vs[j].Name()
+	})
+	return vs
 }
